@@ -30,14 +30,18 @@ def survivors_test(ctx, n_sets, per_set):
                 try: pl2.play(h.stream(), False)
                 finally: rec.close()
                 # creation packets may fail half-way (not trace-free): such histories are outside this clause
-                if any(h.packets[i][3] in ('create', 'base-player', 'cell-player') or 'player-position' in h.packets[i][3] for i in failed if i < len(h.packets)):
+                if any(h.packets[i][3] in ('base-player', 'cell-player') or 'player-position' in h.packets[i][3] for i in failed if i < len(h.packets)):
                     continue
+                # an entity-creation packet that fails in its state block has already notified the subscribers of the values before the bad one
+                # (not trace-free), but it must not leave the entity behind: for such histories the final STATE is compared, not the trace
+                state_only = any(h.packets[i][3] in ('create', 'fault-create-bad-state') for i in failed if i < len(h.packets))
                 surv = [p for i, p in enumerate(h.packets) if i not in failed]
                 lib_l, _ = synth.run_library(dialect, d, h.stream(), strict=False)
                 lib_s, _ = synth.run_library(dialect, d, h.stream(surv), strict=True)
                 ctx.case(('survivors', dialect, hash(h.stream())))
                 ctx.count('survivors:failed-packets', len(failed))
                 a, b = synth.split(lib_l), synth.split(lib_s)
+                if state_only: a, b = a[1:], b[1:]; ctx.count('survivors:state-only')
                 if a != b and bad == 0:
                     bad += 1
                     ctx.violation(dict(kind='lenient-vs-strict-on-survivors', dialect=dialect, defs=worldcheck.read_defs_dir(d),
@@ -71,6 +75,29 @@ def get_info_modes(ctx):
         if not (ok1 and ok2):
             ctx.violation(dict(kind='get_info-modes', lenient_result={k: (v if k != 'open' else '...') for k, v in r.items()}, strict_raised_runtime_error=ok2,
                                how='a recording whose version string is patched to an unbundled version; ReplayParser(strict=False/True).get_info()'))
+        # a well-formed container whose stream holds ONE faulty packet of each failure class, in the middle of a real battle:
+        # strict get_info() must raise exactly that packet's exception, lenient get_info() must return a summary
+        import struct, random
+        from tools import battle, c15
+        b, vs = battle.build_wows('13_2_0', random.Random(7))
+        frames = list(b.out)
+        faults = [('unknown-entity-method', struct.pack('<III', len(struct.pack('<III', 0x7ffffff0, 0, 0)), 8, 0) + struct.pack('<III', 0x7ffffff0, 0, 0), KeyError),
+                  ('unknown-entity-property', struct.pack('<III', 12, 7, 0) + struct.pack('<III', 0x7ffffff0, 0, 0), KeyError),
+                  ('method-id-out-of-range', struct.pack('<III', 12, 8, 0) + struct.pack('<III', 900, 4000, 0), IndexError),
+                  ('truncated-position', struct.pack('<III', 3, 0x0a, 0) + b'\x01\x02\x03', struct.error)]
+        for name, pkt, exc in faults:
+            mid = len(frames) // 2
+            stream = b''.join(frames[:mid]) + pkt + b''.join(frames[mid:])
+            p = os.path.join(tmp, name + '.wowsreplay'); battle.write_replay(p, 'wowsreplay', {'clientVersionFromXml': vs}, stream)
+            ctx.case(('get_info-fault', name), n=2)
+            r = ReplayParser(p, strict=False).get_info()
+            try:
+                ReplayParser(p, strict=True).get_info(); raised = None
+            except Exception as ex: raised = type(ex)
+            if r.get('hidden') is None or raised is None or not issubclass(raised, exc):
+                ctx.violation(dict(kind='get_info-modes', fault=name, packet=pkt.hex(), lenient_hidden_present=r.get('hidden') is not None, lenient_error=r.get('error'),
+                                   strict_raised=(raised.__name__ if raised else None), expected_exception=exc.__name__,
+                                   how='a synthetic 13.2.0 battle with that packet spliced into the middle; ReplayParser(path, strict=False/True).get_info()'))
     finally:
         shutil.rmtree(tmp, ignore_errors=True)
 
